@@ -420,7 +420,7 @@ theorem mapVal_id (l : Log) : l.map (Call.mapVal fun _ c => c) = l := by
 /-! ### One theorem per wrapper -/
 
 /-- `BoxEntry`: the double-dispatch bridge (entry writer to dyn and back, value to dyn and back, the
-`SmallVec` collects, config forwarding) is the identity on the call log and on the sample group. -/
+`SmallVec` collects, config forwarding) is the identity on the call log and on the sample group. The sample group is collected from the inner group as a list, whatever the inner iterator's size hint. -/
 theorem c15_boxed_id (e : Ent) :
     (Ent.boxed e).log = e.log ∧ (Ent.boxed e).sampleGroup = e.sampleGroup := by
   refine ⟨?_, by simp [Ent.sampleGroup]⟩
@@ -558,7 +558,14 @@ of the specifications applied to the plain entry's call log. -/
 theorem c15_compose_log (ws : List Wrapper) (e : Ent) : (applyAll ws e).log = specLogAll ws e.log :=
   applyAll_log ws e
 
-/-- Sample groups are preserved in the same way, for every composition. -/
+/-- Sample groups are preserved in the same way, for every composition.
+
+The sample group of a wrapper is a function of the inner group **as a list** (`Ent.sampleGroup : Ent →
+Dims`): the `size_hint()` of the Rust iterator that produces the inner group is deliberately NOT an
+input of the model, so transparency holds however lazily the inner entry builds its group (`filter`,
+`flatten`, `from_fn`, the per-variant iterator enum of `#[metrics] enum`, …).  An implementation that
+looks at the size hint is a different function; `c15_size_hint_variant_not_transparent` below shows that the
+obvious one (skip the collect when the lower bound is 0) violates this theorem. -/
 theorem c15_compose_sample_group (ws : List Wrapper) (e : Ent) :
     (applyAll ws e).sampleGroup = specSGAll ws e.sampleGroup := by
   induction ws generalizing e with
@@ -708,6 +715,21 @@ theorem c15_force_empty_flags_id (v : Val) (e : Ent) :
   · rw [(c15_flags_merged e none).1, hfun, mapVal_id]
   · rw [wrapper_log]; simp only [Wrapper.specLog]; rw [hfun, mapVal_id]
 
+/-! ### The size hint is not an input -/
+
+/-- A variant of `DynEntry::sample_group` that takes the iterator's `size_hint()` lower bound as an extra
+input and returns the empty group when it is 0 ("most entries keep the default group"). -/
+def boxedSampleGroupWithHint (lowerBound : Nat) (inner : Dims) : Dims :=
+  if lowerBound = 0 then [] else collect inner
+
+/-- Witness: for a one-pair group produced by a lazy iterator (lower bound 0) the variant differs from
+what `c15_boxed_id` / `c15_compose_sample_group` require of `BoxEntry` — it is not transparent;
+with an exact hint it agrees, which is why exact-size test entries cannot see it. -/
+theorem c15_size_hint_variant_not_transparent :
+    boxedSampleGroupWithHint 0 [([111], [112])] ≠ (Ent.boxed (.base [] [([111], [112])])).sampleGroup ∧
+    boxedSampleGroupWithHint 1 [([111], [112])] = (Ent.boxed (.base [] [([111], [112])])).sampleGroup := by
+  decide
+
 /-! ### Long-lived adapters are history independent -/
 
 theorem applyAll_cons (w : Wrapper) (ws : List Wrapper) (e : Ent) :
@@ -795,3 +817,4 @@ end Wrappers
 #print axioms Wrappers.c15_transformers_keep_skeleton
 #print axioms Wrappers.c15_adapters_history_independent
 #print axioms Wrappers.c15_force_empty_flags_id
+#print axioms Wrappers.c15_size_hint_variant_not_transparent
